@@ -130,3 +130,35 @@ func vB(b bool) string {
 	}
 	return "0"
 }
+
+// C07 / C02 (log copy): FSM.Apply stores every command entry it is given in
+// the IRC log copy before executing it — also an entry that is already marked
+// as message of death (a restart replays the raft log through Apply; the copy
+// in irclog/ is what snapshots fold and carry).
+func verifHarness_C07_apply() {
+	store, err := raftstore.NewLevelDBStore(vTempDir(), false, true)
+	verifAssume(err == nil)
+	ircstore, err := raftstore.NewLevelDBStore(vTempDir(), false, true)
+	verifAssume(err == nil)
+	fsm := &FSM{store: store, ircstore: ircstore}
+	yes := true
+	useProtobuf = &yes
+	msg := vMessage()
+	verifAssume(msg.Id.Id != 0)
+	data, merr := proto.Marshal(msg.ProtoMessage())
+	verifAssume(merr == nil)
+	l := &raft.Log{Index: nondetU64(), Term: nondetU64(), Type: raft.LogCommand, Data: append([]byte{'p'}, data...)}
+	verifAssume(l.Index > 0 && l.Index < 0x7300000000000000)
+	vPanicNow = false
+	ircServer = ircserver.NewIRCServer("robustirc.net", time.Unix(0, 1))
+	outputStream, _ = outputstream.NewOutputStream("")
+	verifCaseLabel("apply type-is-message-of-death=" + vB(msg.Type == robust.MessageOfDeath))
+	fsm.Apply(l)
+	var got raft.Log
+	gerr := ircstore.GetLog(l.Index, &got)
+	verifAssert(gerr == nil, "applied-entry-is-in-the-log-copy")
+	if gerr == nil {
+		m := robust.NewMessageFromBytes(got.Data, l.Index)
+		verifAssert(verifAnd(got.Index == l.Index, got.Term == l.Term, m.Type == msg.Type, vSameMessage(&m, &msg)), "log-copy-holds-the-entry-as-applied")
+	}
+}
